@@ -93,12 +93,21 @@ func (x *Exec) specExpr(s *State, e *CExpr, sc *specCtx) *Value {
 		var bs []*Term
 		for _, n := range e.Vars {
 			bv := Fresh("q."+n, SInt)
+			if x.qVars == nil {
+				x.qVars = map[*Term]bool{}
+			}
+			x.qVars[bv] = true
 			bs = append(bs, bv)
 			nb[n] = intV(bv)
 		}
 		sc2 := *sc
 		sc2.bound = nb
-		body := x.specExpr(s, e.Args[0], &sc2)
+		// facts learnt while evaluating the body (typing facts of the cells it reads) may mention the bound
+		// variables: they stay inside the quantifier and never reach the path condition.
+		tmp := s.Clone()
+		body := x.specExpr(tmp, e.Args[0], &sc2)
+		// The facts are typing facts of well-formed states (true for every value of the bound variables in any
+		// real state), so leaving them out is sound in both polarities.
 		if e.Op == "forall" {
 			return boolV(Forall(bs, body.T))
 		}
@@ -490,6 +499,24 @@ func (x *Exec) specCall(s *State, e *CExpr, sc *specCtx) *Value {
 			return prim(App("addr.to_str", SInt, ev(0).T), tStr)
 		case "validaddr":
 			return boolV(Eq(App("addr.of_str_err", SInt, ev(0).T), Zero))
+		}
+		// spec predicate of the package
+		if x.cur.pkg != nil {
+			if pc, ok := x.Pr.Contracts[x.cur.pkg.Path+"|pred:"+fn.Name]; ok {
+				nb := map[string]*Value{}
+				for k, v := range sc.bound {
+					nb[k] = v
+				}
+				if len(args) != len(pc.Params) {
+					panic(execPanic{"contract: wrong number of arguments for pred " + fn.Name})
+				}
+				for i, p := range pc.Params {
+					nb[strings.SplitN(p, ":", 2)[0]] = ev(i)
+				}
+				sc2 := *sc
+				sc2.bound = nb
+				return x.specExpr(s, pc.Clauses[0].Expr, &sc2)
+			}
 		}
 		// a function or lemma-free helper of the package under verification
 		if x.cur.pkg != nil {
